@@ -669,9 +669,17 @@ func runCorrupt() {
 			req.Header.Set("Content-Encoding", enc)
 		}
 		w := httptest.NewRecorder()
-		srv.Router.ServeHTTP(w, req)
-		dispatched := len(rec.Maps)+len(rec.Events) > 0
 		rp := map[string]any{"path": path, "enc": enc, "body": body}
+		if p := func() (p any) {
+			defer func() { p = recover() }()
+			srv.Router.ServeHTTP(w, req)
+			return nil
+		}(); p != nil {
+			// net/http would drop the connection: the client gets no status at all
+			res.Violate("handler-panic", fmt.Sprintf("%s %s enc=%q body=%x: the request handler panicked (no status is answered): %v", what, path, enc, body, p), rp)
+			return
+		}
+		dispatched := len(rec.Maps)+len(rec.Events) > 0
 		switch {
 		case w.Code >= 200 && w.Code < 300:
 			if !refDecode(path, enc, body) {
